@@ -25,23 +25,78 @@ def generate(repo, g):
             raise TieBroken('references.py: %s is not a natural number' % nm, repr(v))
         g.define(lean, 'Nat', str(v), 'jedi/inference/references.py:' + nm)
 
-    # recurse_find_python_folders_and_files: `path.suffix in (...)`, `path.name == '.gitignore'`,
-    # and the three conjuncts of the folder filter
+    # recurse_find_python_folders_and_files (shape after the fix "gitignore-file-entries-and-prefix"):
+    #   except_paths = set(str(p) for p in except_paths)
+    #   for root_folder_io, folder_ios, file_ios in folder_io.walk():
+    #       for file_io in file_ios:  if file_io.path.name == '.gitignore': ... |= ...
+    #       except_paths_relative_expanded = expand_relative_ignore_paths(root_folder_io, except_paths_relative)
+    #       for file_io in file_ios:  if path.suffix in (...):  if <file filter>:  yield None, file_io
+    #       folder_ios[:] = [... if <folder filter>]
+    #       for folder_io in folder_ios: yield folder_io, None
     fn = refs.find('recurse_find_python_folders_and_files')
-    suffixes = None
+    first = u(fn.body[0]) if fn.body else ''
+    if first not in ('except_paths = set((str(p) for p in except_paths))', 'except_paths = {str(p) for p in except_paths}'):
+        raise TieBroken('references.py: except_paths is no longer converted to a set of str first', first)
+    loops = [n for n in fn.body if isinstance(n, ast.For)]
+    if len(loops) != 1 or u(loops[0].iter) != 'folder_io.walk()':
+        raise TieBroken('references.py: the loop over folder_io.walk() not found')
+    body = loops[0].body
+    kinds = [type(n).__name__ for n in body]
+    if kinds != ['For', 'Assign', 'For', 'Assign', 'For']:
+        raise TieBroken('references.py: body of the walk loop is not [read .gitignore, expand, yield files, '
+                        'filter folders, yield folders]', repr(kinds))
+    read_loop, expand_assign, file_loop, filter_assign, folder_loop = body
+    # (1) the .gitignore loop: nothing but `if file_io.path.name == <name>: read, |=, |=`
     gitname = None
-    for n in ast.walk(fn):
-        if isinstance(n, ast.Compare) and len(n.ops) == 1:
-            if u(n.left) == 'path.suffix' and isinstance(n.ops[0], ast.In):
-                suffixes = ast.literal_eval(n.comparators[0])
-            if u(n.left) == 'path.name' and isinstance(n.ops[0], ast.Eq):
-                gitname = ast.literal_eval(n.comparators[0])
-    if suffixes is None or gitname is None:
-        raise TieBroken('references.py: suffix test / .gitignore test not found in recurse_find_python_folders_and_files')
+    if len(read_loop.body) == 1 and isinstance(read_loop.body[0], ast.If) and not read_loop.body[0].orelse:
+        t = read_loop.body[0].test
+        if isinstance(t, ast.Compare) and len(t.ops) == 1 and isinstance(t.ops[0], ast.Eq) \
+                and u(t.left) == 'file_io.path.name':
+            gitname = ast.literal_eval(t.comparators[0])
+        inner = [u(x) for x in read_loop.body[0].body]
+        if inner != ['ignored_paths_abs, ignored_paths_rel = gitignored_paths(root_folder_io, file_io)',
+                     'except_paths |= ignored_paths_abs', 'except_paths_relative |= ignored_paths_rel']:
+            raise TieBroken('references.py: body of the .gitignore branch changed', repr(inner))
+    if gitname is None or u(read_loop.iter) != 'file_ios' or any(isinstance(n, (ast.Yield, ast.YieldFrom))
+                                                                 for n in ast.walk(read_loop)):
+        raise TieBroken('references.py: first loop of the walk step is not the .gitignore reader')
+    # (2) expansion for this folder, after every .gitignore of the listing was read
+    if u(expand_assign) != ('except_paths_relative_expanded = '
+                            'expand_relative_ignore_paths(root_folder_io, except_paths_relative)'):
+        raise TieBroken('references.py: expand_relative_ignore_paths call changed', u(expand_assign))
+    # (3) the file loop: suffix test, then the file filter, then the yield
+    suffixes = None
+    fconj = None
+    if u(file_loop.iter) == 'file_ios' and len(file_loop.body) == 2 and u(file_loop.body[0]) == 'path = file_io.path' \
+            and isinstance(file_loop.body[1], ast.If) and not file_loop.body[1].orelse:
+        outer = file_loop.body[1]
+        t = outer.test
+        if isinstance(t, ast.Compare) and len(t.ops) == 1 and isinstance(t.ops[0], ast.In) and u(t.left) == 'path.suffix':
+            suffixes = ast.literal_eval(t.comparators[0])
+        if len(outer.body) == 1 and isinstance(outer.body[0], ast.If) and not outer.body[0].orelse \
+                and [u(x) for x in outer.body[0].body] == ['yield (None, file_io)']:
+            c = outer.body[0].test
+            vals = c.values if isinstance(c, ast.BoolOp) and isinstance(c.op, ast.And) else [c]
+            ftable = {'str(path) not in except_paths': 'not_in_except_paths',
+                      'str(path) not in except_paths_relative_expanded': 'not_in_relative_expanded'}
+            fconj = []
+            for v in vals:
+                if u(v) not in ftable:
+                    raise TieBroken('references.py: unknown file filter conjunct', u(v))
+                fconj.append(ftable[u(v)])
+    if suffixes is None or fconj is None:
+        raise TieBroken('references.py: file loop of the walk step is not `suffix test -> file filter -> yield`',
+                        u(file_loop))
+    # (4), (5)
+    if u(filter_assign.targets[0]) != 'folder_ios[:]' or u(folder_loop) != \
+            'for folder_io in folder_ios:\n    yield (folder_io, None)':
+        raise TieBroken('references.py: folder filter assignment / folder yield loop changed')
     g.define('pySuffixes', 'List String', lean_list(list(suffixes)),
              'jedi/inference/references.py:recurse_find_python_folders_and_files `path.suffix in`')
     g.define('gitignoreName', 'String', lean_list([gitname])[1:-1],
-             'jedi/inference/references.py:recurse_find_python_folders_and_files `path.name ==`')
+             'jedi/inference/references.py:recurse_find_python_folders_and_files `file_io.path.name ==`')
+    g.define('fileFilterConjuncts', 'List String', lean_list(fconj),
+             'jedi/inference/references.py:recurse_find_python_folders_and_files `if str(path) not in ...: yield`')
     comps = [n for n in ast.walk(fn) if isinstance(n, ast.ListComp)]
     if len(comps) != 1 or len(comps[0].generators) != 1 or len(comps[0].generators[0].ifs) != 1:
         raise TieBroken('references.py: folder filter comprehension not found')
@@ -61,6 +116,19 @@ def generate(repo, g):
         conj.append(table[s])
     g.define('folderFilterConjuncts', 'List String', lean_list(conj),
              'jedi/inference/references.py:recurse_find_python_folders_and_files folder_ios[:] = [...]')
+
+    # expand_relative_ignore_paths: separator-aware test
+    fn = refs.find('expand_relative_ignore_paths')
+    sc = [n for n in ast.walk(fn) if isinstance(n, ast.SetComp)]
+    ok = (len(sc) == 1 and u(sc[0].elt) == 'os.path.join(curr_path, p[1])' and len(sc[0].generators) == 1
+          and u(sc[0].generators[0].iter) == 'relative_paths' and len(sc[0].generators[0].ifs) == 1
+          and u(fn.body[0]) == 'curr_path = folder_io.path')
+    want = 'curr_path == p[0] or curr_path.startswith(p[0].rstrip(os.path.sep) + os.path.sep)'
+    if not ok or u(sc[0].generators[0].ifs[0]) != want:
+        raise TieBroken('references.py: expand_relative_ignore_paths is not the separator-aware comprehension',
+                        u(fn))
+    g.define('relativeEntryTest', 'String', '"eq_or_sep_prefix"',
+             'jedi/inference/references.py:expand_relative_ignore_paths `if curr_path == p[0] or ...`')
 
     # gitignored_paths: the skip condition
     fn = refs.find('gitignored_paths')
